@@ -10,6 +10,7 @@ func init() {
 			"an invalid value is asserted to be skipped only where all six exporters skip it (empty variable, unparsable URL, non-integer timeout, WithEndpointURL with an unparsable URL); for every other invalid value (unknown compression, malformed header list, padded text, non-positive timeout, out-of-range option) only 'constructor + one export + shutdown neither panic nor hang' is asserted and the per-exporter outcome is recorded in the class table (obs/...)",
 			"WithEndpointURL without a path, WithURLPath(\"\") and, for the gRPC exporters, endpoint URLs with a path longer than \"/\" are not asserted (the exporters differ and the statement does not say)",
 			"HTTP timeouts are judged by success / failure against a collector that answers after 80 ms (long timeout expected) or 3 s (10..30 ms timeout expected); gRPC timeouts by the server-side deadline within (T/2, T+100 ms]",
+			"caller-supplied transport (a third of the OTLP cases): with WithGRPCConn the connection owns endpoint, insecure/TLS and compression (the option 'takes precedence over any other option that relates to establishing or persisting a gRPC connection'; WithEndpoint, WithEndpointURL, WithInsecure, WithTLSCredentials, WithCompressor, WithReconnectionPeriod, WithServiceConfig, WithDialOption 'have no effect if WithGRPCConn is used'): the request must arrive at the connection's collector whatever those sources say and the encoding is not asserted; headers and timeout keep the precedence oracle and are read from the metadata / deadline the collector received; retry stays disabled. The HTTP exporters have no WithHTTPClient: WithProxy(func returning no proxy) makes them clone their transport and every setting stays in force",
 			"SDK: a non-integer OTEL_SPAN_ATTRIBUTE_* value may give the default or the generic variable's value; an sdk/log batch option below one may give the default or the environment's value; size 0, non-positive durations and sizes whose eager allocation cannot succeed have no asserted meaning (OTEL_BLRP_MAX_QUEUE_SIZE near MaxInt64 is not generated: the constructor would allocate until the machine runs out of memory)",
 			"the sampler is judged by its decisions on 16 spread trace ids and six remote-parent probes (the TracerProvider does not expose its Sampler); for a ratio sampler with an unusable argument both ratio 1.0 and the documented default ParentBased(AlwaysSample) are accepted",
 			"schedule delays: 20 ms / 10 ms must export within 3 s (spans) / 10 s (logs); one hour or the default must not export within 100 ms; the log processor's 1 s default is not told apart from a 10 ms environment value",
